@@ -1,1 +1,485 @@
-/- C17 — property theorems (to be written) -/
+/-
+  C17 — buffer traffic models charge exactly what their policy implies.
+  Property theorems only; helper lemmas live in FtProofs/Lemmas/Traffic*.lean.
+-/
+import FtProofs.Lemmas.TrafficBasic
+import FtProofs.Lemmas.TrafficTools
+import FtProofs.Lemmas.TrafficBuffet
+import FtProofs.Lemmas.TrafficSched
+import FtProofs.Lemmas.TrafficCache
+import FtProofs.Lemmas.TrafficCacheBounds
+import FtProofs.Lemmas.TrafficSchedOrd
+set_option linter.unusedSectionVars false
+set_option linter.unusedSimpArgs false
+set_option linter.unusedVariables false
+namespace Ft
+namespace Traffic
+
+/-! ## trace combination is a stable merge by iteration stamp -/
+
+/-- `_combineTraces` on stamp-sorted files: nothing lost, nothing invented, each file's rows in
+    their own order, a write never precedes a read with an equal-or-smaller stamp and a read never
+    precedes a write with a strictly smaller stamp (reads first on ties). -/
+theorem combine_stable_merge (reads writes : List Row)
+    (hr : StampSorted reads) (hw : StampSorted writes) :
+    combineSpecB reads writes (combine reads writes) = true := by
+  simp only [combineSpecB, Bool.and_eq_true, decide_eq_true_eq]
+  exact ⟨⟨⟨combine_reads reads writes, combine_writes reads writes⟩,
+    combine_tiesReadFirst reads writes hr⟩, combine_readsNotOvertaken reads writes hw⟩
+
+/-- … and these conditions determine the merge: any list passing the executable check is the
+    model's output (so "spec on the implementation's file" and "file = model" are one test). -/
+theorem combine_complete (reads writes : List Row) (out : List CRow)
+    (h : combineSpecB reads writes out = true) : out = combine reads writes := by
+  induction out generalizing reads writes with
+  | nil =>
+    simp only [combineSpecB, Bool.and_eq_true, decide_eq_true_eq] at h
+    obtain ⟨⟨⟨h1, h2⟩, _⟩, _⟩ := h
+    simp at h1 h2; subst h1; subst h2; simp [combine]
+  | cons x out ih =>
+    simp only [combineSpecB, Bool.and_eq_true, decide_eq_true_eq] at h
+    obtain ⟨⟨⟨h1, h2⟩, h3⟩, h4⟩ := h
+    simp only [tiesReadFirst, readsNotOvertaken, Bool.and_eq_true, Bool.or_eq_true,
+      Bool.not_eq_true', List.all_eq_true] at h3 h4
+    have ih' : ∀ rs ws, (out.filter (fun r => !r.isWrite)).map CRow.untag = rs →
+        (out.filter (fun r => r.isWrite)).map CRow.untag = ws → out = combine rs ws := by
+      intro rs ws e1 e2
+      apply ih
+      simp only [combineSpecB, Bool.and_eq_true, decide_eq_true_eq]
+      exact ⟨⟨⟨e1, e2⟩, h3.2⟩, h4.2⟩
+    cases hx : x.isWrite
+    · -- the head is a read: it is the first read
+      simp only [List.filter_cons, hx, Bool.not_false, if_true, List.map_cons, Bool.false_eq_true,
+        if_false] at h1 h2
+      cases reads with
+      | nil => cases h1
+      | cons r rs =>
+        simp only [List.cons.injEq] at h1
+        have hrest := ih' rs writes h1.2 h2
+        have hxr : x = r.tag false := eq_tag_of_untag h1.1 hx
+        cases writes with
+        | nil =>
+          rw [combine, hrest, hxr]
+          cases rs <;> simp [combine]
+        | cons w ws =>
+          rw [combine]
+          have hnot : lexLt w.stamp r.stamp = false := by
+            -- w occurs later in `out` as a write; a read is never overtaken
+            have hw_mem : w.tag true ∈ out := mem_of_proj_write h2 List.mem_cons_self
+            rcases h4.1 with hxw | hall
+            · rw [hx] at hxw; cases hxw
+            · have := hall _ hw_mem
+              rcases this with hc | hc
+              · simp at hc
+              · simp only [lexLe, Bool.not_eq_true', tag_stamp] at hc
+                rw [hxr] at hc; exact hc
+          simp [hnot, hrest, hxr]
+    · -- the head is a write: it is the first write and strictly precedes the first read
+      simp only [List.filter_cons, hx, Bool.not_true, Bool.false_eq_true, if_false, if_true,
+        List.map_cons] at h1 h2
+      cases writes with
+      | nil => cases h2
+      | cons w ws =>
+        simp only [List.cons.injEq] at h2
+        have hrest := ih' reads ws h1 h2.2
+        have hxw : x = w.tag true := eq_tag_of_untag h2.1 hx
+        cases reads with
+        | nil => rw [combine]; simp [hrest, hxw, combine]
+        | cons r rs =>
+          rw [combine]
+          have hlt : lexLt w.stamp r.stamp = true := by
+            have hr_mem : r.tag false ∈ out := mem_of_proj_read h1 List.mem_cons_self
+            rcases h3.1 with hxf | hall
+            · rw [hx] at hxf; cases hxf
+            · have := hall _ hr_mem
+              rcases this with hc | hc
+              · simp at hc
+              · rw [hxw] at hc; exact hc
+          simp [hlt, hrest, hxw]
+
+example : combine [⟨[0], [1], 1⟩, ⟨[2], [0], 0⟩] [⟨[0], [5], 5⟩, ⟨[1], [6], 6⟩] =
+    [⟨[0], [1], 1, false⟩, ⟨[0], [5], 5, true⟩, ⟨[1], [6], 6, true⟩, ⟨[2], [0], 0, false⟩] := by
+  simp [combine, lexLt, Row.tag]
+
+/-! ## trace filtering keeps exactly the rows whose point occurs in the filter trace -/
+
+/-- `filterTrace` on an input whose points are strictly increasing and a filter whose (cut) points
+    are non-decreasing — both in Python tuple order — keeps exactly the matching rows. -/
+theorem filter_spec (n : Nat) (inp fil : List Row)
+    (hlen : ∀ x ∈ inp, x.coords.length = n)
+    (hin : inp.Pairwise (fun a b => lexLt a.coords b.coords = true))
+    (hfil : fil.Pairwise (fun a b => lexLe (a.coords.take n) (b.coords.take n) = true)) :
+    filterTrace inp fil = filterSpec inp fil := by
+  fun_induction filterTrace inp fil with
+  | case1 fil => simp [filterSpec]
+  | case2 i is => simp [filterSpec]
+  | case3 i is f fs heq ih =>
+    have hi := hlen i List.mem_cons_self
+    have hlen' : ∀ x ∈ is, x.coords.length = n := fun x hx => hlen x (List.mem_cons_of_mem _ hx)
+    rw [ih hlen' (List.pairwise_cons.1 hin).2 (List.pairwise_cons.1 hfil).2]
+    have hkeep : (f :: fs).any (fun g => decide (g.coords.take i.coords.length = i.coords)) = true := by
+      simp only [List.any_cons, Bool.or_eq_true, decide_eq_true_eq]; left; exact heq.symm
+    simp only [filterSpec, List.filter_cons, hkeep, if_true]
+    congr 1
+    apply List.filter_congr
+    intro x hx
+    have hxl := hlen' x hx
+    have hlt := (List.pairwise_cons.1 hin).1 x hx
+    have : ¬ (f.coords.take x.coords.length = x.coords) := by
+      intro e
+      have : i.coords = x.coords := by
+        rw [← e, hxl, ← hi]; exact heq
+      exact lexLt_ne hlt this
+    simp [this]
+  | case4 i is f fs hne hlt ih =>
+    have hi := hlen i List.mem_cons_self
+    have hlen' : ∀ x ∈ is, x.coords.length = n := fun x hx => hlen x (List.mem_cons_of_mem _ hx)
+    rw [ih hlen' (List.pairwise_cons.1 hin).2 hfil]
+    have hdrop : (f :: fs).any (fun g => decide (g.coords.take i.coords.length = i.coords)) = false := by
+      rw [List.any_eq_false]
+      intro g hg
+      simp only [decide_eq_true_eq]
+      intro e
+      have hfg : lexLe (f.coords.take n) (g.coords.take n) = true := by
+        rcases List.mem_cons.1 hg with rfl | hg
+        · exact lexLe_refl _
+        · exact (List.pairwise_cons.1 hfil).1 g hg
+      have h1 : lexLt i.coords (g.coords.take n) = true := by
+        apply lexLt_of_lt_of_le _ hfg
+        rw [← hi]; exact hlt
+      rw [← hi, e, lexLt_irrefl] at h1; cases h1
+    simp only [filterSpec, List.filter_cons, hdrop, Bool.false_eq_true, if_false]
+  | case5 i is f fs hne hnlt ih =>
+    have hi := hlen i List.mem_cons_self
+    rw [ih hlen hin (List.pairwise_cons.1 hfil).2]
+    simp only [filterSpec]
+    apply List.filter_congr
+    intro x hx
+    have hxl := hlen x hx
+    -- f's point is strictly below every remaining input point
+    have hgt : lexLt (f.coords.take n) i.coords = true := by
+      cases h : lexLt (f.coords.take n) i.coords
+      · exfalso
+        have h2 : lexLt i.coords (f.coords.take n) = false := by
+          have := hnlt; simp only [Bool.not_eq_true] at this
+          rw [← hi]; exact this
+        have := lexLt_total h h2
+        apply hne; rw [hi]; exact this.symm
+      · rfl
+    have hfx : lexLt (f.coords.take n) x.coords = true := by
+      rcases List.mem_cons.1 hx with rfl | hx'
+      · exact hgt
+      · exact lexLt_trans hgt ((List.pairwise_cons.1 hin).1 x hx')
+    have : ¬ (f.coords.take x.coords.length = x.coords) := by
+      intro e; rw [hxl] at e; rw [e, lexLt_irrefl] at hfx; cases hfx
+    simp [this]
+
+example : filterTrace [⟨[0], [1], 0⟩, ⟨[1], [3], 1⟩, ⟨[2], [4], 2⟩]
+    [⟨[0, 0], [1, 7], 0⟩, ⟨[0, 1], [1, 9], 1⟩, ⟨[1, 0], [2, 0], 0⟩, ⟨[2, 0], [4, 4], 0⟩] =
+    [⟨[0], [1], 0⟩, ⟨[2], [4], 2⟩] := by simp [filterTrace, lexLt]
+
+/-! ## next use -/
+
+/-- `_buildNextUseTrace`: every row is paired with the first later row on the same line. -/
+theorem nextuse_correct (mask : List Bool) (epl : Nat) (rows : List CRow) :
+    nextUse mask epl rows = nextUseSpec mask epl rows := by
+  unfold nextUse
+  induction rows with
+  | nil => rfl
+  | cons r rest ih =>
+    simp only [nextUseAux, nextUseSpec, nextUseAux_dict, ih]
+
+example : (nextUse [true] 2 [⟨[0], [0], 0, false⟩, ⟨[1], [5], 5, true⟩, ⟨[2], [1], 1, false⟩]).map
+    (fun x => x.2.map (·.stamp)) = [some [2], none, none] := by decide
+
+/-- what the main loop reads is the next-use annotation: the accesses built from a combined trace
+    carry, as `next`, the stamp of the first later access to the same line (when the mask the
+    next-use pass derives from the trace header is the one the main loop derives from `order`) -/
+theorem accsOf_nextOk (mask : List Bool) (epl : Nat) (shape : Option Nat) (rows : List CRow) :
+    nextOkB (accsOf mask mask epl shape rows) = true := by
+  unfold accsOf
+  rw [nextuse_correct]
+  induction rows with
+  | nil => rfl
+  | cons r rest ih =>
+    simp only [nextUseSpec, List.map_cons, nextOkB, Bool.and_eq_true, decide_eq_true_eq, ih, and_true]
+    simp only [mkAcc]
+    exact (find_map_spec mask epl shape (r.line mask epl) rest).symm
+
+/-! ## the buffet charges one fill per (line, eviction-window) pair whose first access is a read,
+       one write-back per pair containing a non-staging write -/
+
+/-- Buffet fills.  `accs` is one binding's next-use trace as the main loop reads it (`nextOkB`: the
+    annotation is what `_buildNextUseTrace` produces, see `accsOf_nextOk`); `winContigB`: the rows
+    of one eviction window are adjacent (true for stamp-sorted traces, `buffet_fills_sorted`).
+    Any capacity (the buffet never refuses a line), any line size, any evict-on depth `e`
+    (0 = root). -/
+theorem buffet_fills (e ls : Nat) (accs : List Acc)
+    (hn : nextOkB accs = true) (hc : winContigB e accs = true) :
+    (buffet1 e ls accs).reads = ls * fillsSpec e accs := by
+  have := (inv_run e ls accs {} [] [] [] [] (inv_init e accs (winContig_of_B e hc)) (nextOk_of_B hn)).1
+  simpa [buffet1, fillsSpec] using this
+
+/-- Buffet write-backs (`Acc.wb` is false for writes into the staging area beyond the shape). -/
+theorem buffet_writebacks (e ls : Nat) (accs : List Acc)
+    (hn : nextOkB accs = true) (hc : winContigB e accs = true) :
+    (buffet1 e ls accs).writes = ls * writebacksSpec e accs := by
+  have := (inv_run e ls accs {} [] [] [] [] (inv_init e accs (winContig_of_B e hc)) (nextOk_of_B hn)).2
+  simpa [buffet1, writebacksSpec, dirtyCount] using this
+
+/-- The same for well-formed (stamp-sorted) traces, from the rows of the combined trace. -/
+theorem buffet_fills_sorted (e ls epl : Nat) (mask : List Bool) (shape : Option Nat) (rows : List CRow)
+    (hs : stampsSortedB (rows.map (·.stamp)) = true) :
+    (buffet1 e ls (accsOf mask mask epl shape rows)).reads
+        = ls * fillsSpec e (accsOf mask mask epl shape rows) ∧
+    (buffet1 e ls (accsOf mask mask epl shape rows)).writes
+        = ls * writebacksSpec e (accsOf mask mask epl shape rows) := by
+  have hst := accsOf_stamps mask epl shape rows
+  have hc := winContig_of_sorted e (accs := accsOf mask mask epl shape rows) (by rw [hst]; exact hs)
+  have hn := nextOk_of_B (accsOf_nextOk mask epl shape rows)
+  have := inv_run e ls _ {} [] [] [] [] (inv_init e _ hc) hn
+  exact ⟨by simpa [buffet1, fillsSpec] using this.1,
+         by simpa [buffet1, writebacksSpec, dirtyCount] using this.2⟩
+
+/-- non-vacuity: a trace with a reuse inside a window, a reuse across windows, a write and a
+    staging write; evict-on the outer rank -/
+example :
+    let rows : List CRow := [⟨[0, 0], [0, 1], 1, false⟩, ⟨[0, 1], [0, 1], 1, true⟩,
+                             ⟨[1, 0], [1, 1], 1, false⟩, ⟨[1, 1], [1, 5], 5, true⟩]
+    let accs := accsOf [false, true] [false, true] 1 (some 4) rows
+    stampsSortedB (rows.map (·.stamp)) = true ∧ winContigB 1 accs = true ∧
+    fillsSpec 1 accs = 2 ∧ writebacksSpec 1 accs = 1 ∧
+    (buffet1 1 32 accs).reads = 64 ∧ (buffet1 1 32 accs).writes = 32 := by
+  decide
+
+/-! ## several bindings -/
+
+/-- `_bufferTraffic` consumes the bindings' traces in (padded stamp, binding position) order; this
+    order is an interleaving, and with the buffet callbacks the state of binding `i` after the run
+    is the state of a run over binding `i`'s rows alone (the shared occupancy only feeds the
+    overflow counter). -/
+theorem buffet_bindings_independent (L ls : Nat) (cap : Option Nat) (evictEnds : List Nat)
+    (traces : List (List Acc)) (i : Nat) (hi : i < traces.length) :
+    (buffetRun L evictEnds ls cap traces).bs.getD i {} =
+      buffet1 (evictEnds.getD i 0) ls (traces.getD i []) := by
+  unfold buffetRun buffet1
+  have := (bg_proj evictEnds ls cap i (schedule L traces) { bs := traces.map (fun _ => {}) }
+    (by simpa using hi)).1
+  rw [this, schedule_proj]
+  congr 1
+  simp [List.getD_eq_getElem?_getD, hi]
+
+/-- hence the per-binding charges of a multi-binding buffet run -/
+theorem buffet_fills_all (L ls : Nat) (cap : Option Nat) (evictEnds : List Nat)
+    (traces : List (List Acc)) (i : Nat) (hi : i < traces.length)
+    (hn : nextOkB (traces.getD i []) = true) (hc : winContigB (evictEnds.getD i 0) (traces.getD i []) = true) :
+    ((buffetRun L evictEnds ls cap traces).bs.getD i {}).reads
+        = ls * fillsSpec (evictEnds.getD i 0) (traces.getD i []) ∧
+    ((buffetRun L evictEnds ls cap traces).bs.getD i {}).writes
+        = ls * writebacksSpec (evictEnds.getD i 0) (traces.getD i []) := by
+  rw [buffet_bindings_independent L ls cap evictEnds traces i hi]
+  exact ⟨buffet_fills _ ls _ hn hc, buffet_writebacks _ ls _ hn hc⟩
+
+example :
+    let t0 : List Acc := accsOf [true] [true] 1 none [⟨[0], [3], 3, false⟩, ⟨[1], [3], 3, false⟩]
+    let t1 : List Acc := accsOf [false, true] [false, true] 1 none
+      [⟨[0, 0], [3, 1], 1, false⟩, ⟨[1, 0], [3, 1], 1, false⟩]
+    (schedule 2 [t0, t1]).map (·.1) = [0, 1, 0, 1] ∧
+    ((buffetRun 2 [0, 1] 32 (some 0) [t0, t1]).bs.map (·.reads)) = [32, 64] := by decide
+
+/-! ## hence: never below one fill per distinct line, never above one per access -/
+
+/-- Buffet traffic bounds: at least one fill for every distinct line whose first access is a read
+    (in a read-only trace: every distinct line touched), at most one per read access; at most one
+    write-back per written-back access. -/
+theorem buffet_traffic_bounds (e ls : Nat) (accs : List Acc)
+    (hn : nextOkB accs = true) (hc : winContigB e accs = true) :
+    ls * distinctFirstReads [] accs ≤ (buffet1 e ls accs).reads ∧
+    (buffet1 e ls accs).reads ≤ ls * (accs.filter (fun a => !a.isWrite)).length ∧
+    (buffet1 e ls accs).writes ≤ ls * (accs.filter (fun a => a.wb)).length := by
+  rw [buffet_fills e ls accs hn hc, buffet_writebacks e ls accs hn hc]
+  exact ⟨Nat.mul_le_mul_left _ (distinct_le_fillsFrom e accs [] [] (by simp)),
+         Nat.mul_le_mul_left _ (fillsFrom_le e [] accs),
+         Nat.mul_le_mul_left _ (wbFrom_le e [] accs)⟩
+
+/-! ## traffic depends only on line-granular positions -/
+
+/-- two combined traces that agree on stamps, coordinates, access kind, the LINE of every position
+    and its side of the shape (staging or not) -/
+def LineEquiv (epl : Nat) (shape : Option Nat) : List CRow → List CRow → Prop
+  | [], [] => True
+  | r :: rs, r' :: rs' =>
+    (r.stamp = r'.stamp ∧ r.coords = r'.coords ∧ r.isWrite = r'.isWrite ∧
+      r.pos / epl = r'.pos / epl ∧ (∀ s, shape = some s → (r.pos < s ↔ r'.pos < s)))
+      ∧ LineEquiv epl shape rs rs'
+  | _, _ => False
+
+/-- … are the same sequence of accesses for the simulation, for either policy, any bindings, any
+    capacity: everything downstream of `accsOf` is literally equal. -/
+theorem line_granular (mask : List Bool) (epl : Nat) (shape : Option Nat) :
+    ∀ (rows rows' : List CRow), LineEquiv epl shape rows rows' →
+      accsOf mask mask epl shape rows = accsOf mask mask epl shape rows' := by
+  intro rows rows' h
+  unfold accsOf
+  rw [nextuse_correct, nextuse_correct]
+  have hline : ∀ (r r' : CRow), r.coords = r'.coords → r.pos / epl = r'.pos / epl →
+      r.line mask epl = r'.line mask epl := by
+    intro r r' h1 h2; simp [CRow.line, linePoint, h1, h2]
+  -- the first later row on a given line carries the same stamp in both traces
+  have hfind : ∀ (l l' : List CRow), LineEquiv epl shape l l' → ∀ p,
+      (l.find? (fun x => decide (x.line mask epl = p))).map (·.stamp)
+        = (l'.find? (fun x => decide (x.line mask epl = p))).map (·.stamp) := by
+    intro l
+    induction l with
+    | nil => intro l' hl p; cases l' with
+      | nil => rfl
+      | cons _ _ => exact absurd hl (by simp [LineEquiv])
+    | cons r rs ih =>
+      intro l' hl p
+      cases l' with
+      | nil => exact absurd hl (by simp [LineEquiv])
+      | cons r' rs' =>
+        obtain ⟨⟨h1, h2, _, h4, _⟩, hrest⟩ := hl
+        simp only [List.find?_cons, hline r r' h2 h4]
+        by_cases hp : r'.line mask epl = p
+        · simp [hp, h1]
+        · simp only [hp, decide_false]; exact ih rs' hrest p
+  induction rows generalizing rows' with
+  | nil => cases rows' with
+    | nil => rfl
+    | cons _ _ => exact absurd h (by simp [LineEquiv])
+  | cons r rs ih =>
+    cases rows' with
+    | nil => exact absurd h (by simp [LineEquiv])
+    | cons r' rs' =>
+      obtain ⟨⟨h1, h2, h3, h4, h5⟩, hrest⟩ := h
+      simp only [nextUseSpec, List.map_cons, List.cons.injEq]
+      refine ⟨?_, ih rs' hrest⟩
+      have hl := hline r r' h2 h4
+      have hf := hfind rs rs' hrest (r'.line mask epl)
+      cases shape with
+      | none => simp only [mkAcc, hl, h1, h3, hf]
+      | some s =>
+        have e1 : decide (r.pos < s) = decide (r'.pos < s) := decide_eq_decide.2 (h5 s rfl)
+        have e2 : decide (s ≤ r.pos) = decide (s ≤ r'.pos) := by
+          have := h5 s rfl
+          simp only [decide_eq_decide]
+          constructor <;> intro hh <;> omega
+        simp only [mkAcc, hl, h1, h3, hf, e1, e2]
+
+example : LineEquiv 4 (some 6) [⟨[0], [1], 1, true⟩, ⟨[1], [7], 7, true⟩] [⟨[0], [1], 3, true⟩, ⟨[1], [7], 6, true⟩] := by
+  simp [LineEquiv]
+
+/-! ## the cache charges what a furthest-next-use policy with bypass incurs -/
+
+/-- `cacheTraffic` = the reference simulator (resident set; on a miss with a later use the line is
+    brought in if there is room or if some resident line is needed later than it, evicting the
+    resident line whose next use is furthest; "next use" measured by position in the access
+    sequence).  PARTIAL: proved for consumption sequences `xs` (all bindings interleaved) that
+    (1) carry correct next-use stamps, (2) are ordered as `ListElem` compares and have no stamp tie
+    between different lines of a binding, (3) contain no staging (pinned) access.  Outside (2) the
+    implementation can raise AssertionError or evict suboptimally, outside (3) it can raise
+    AssertionError (known findings); there the correspondence still compares it with the reference. -/
+theorem cache_eq_reference_partial (ls : Nat) (cap : Option Nat) (xs : Sched)
+    (h1 : schedNextOkB xs = true) (h2 : schedOrdB xs = true)
+    (h3 : ∀ x ∈ xs, x.2.staging = false) :
+    (xs.foldl (cstep ls cap) {}).failed = none ∧
+    (xs.foldl (cstep ls cap) {}).reads = (refCache ls cap {} xs).reads ∧
+    (xs.foldl (cstep ls cap) {}).writes = (refCache ls cap {} xs).writes ∧
+    (xs.foldl (cstep ls cap) {}).over = (refCache ls cap {} xs).over := by
+  have key : ∀ (xs : Sched) (s : CState) (r : RState), CRel ls s r xs → SNextOk xs → SOrd xs →
+      (∀ x ∈ xs, x.2.staging = false) →
+      CRel ls (xs.foldl (cstep ls cap) s) (refCache ls cap r xs) [] := by
+    intro xs
+    induction xs with
+    | nil => intro s r h _ _ _; exact h
+    | cons x rest ih =>
+      intro s r h hn ho hs
+      simp only [List.foldl_cons, refCache]
+      apply ih _ _ _ hn.2 ho.2 (fun y hy => hs y (List.mem_cons_of_mem _ hy))
+      have hstep : cstep ls cap s x = cCore ls cap (cCharge ls s x) x := by
+        simp [cstep, h.ok]
+      rw [hstep]
+      exact crel_core (crel_charge h) hn ho (hs x List.mem_cons_self)
+  have hinit : CRel ls {} {} xs := by
+    refine ⟨rfl, rfl, ?_, ?_, ?_, ?_, ?_, ?_, rfl, rfl, rfl, rfl⟩
+    · intro k; rfl
+    · exact List.nodup_nil
+    · intro en hen; cases hen
+    · intro en hen; cases hen
+    · exact List.Pairwise.nil
+    · intro e; constructor
+      · intro he; cases he
+      · rintro ⟨en, hen, _⟩; cases hen
+  have := key xs {} {} hinit (snextOk_of_B h1) (sord_of_B h2) h3
+  exact ⟨this.ok, this.reads, this.writes, this.over⟩
+
+/-- non-vacuity: capacity of one line, X Y X Y X without ties: the second line is bypassed -/
+example :
+    let t : List Acc := accsOf [true] [true] 1 none
+      [⟨[0], [0], 0, false⟩, ⟨[1], [1], 1, false⟩, ⟨[2], [0], 0, false⟩, ⟨[3], [1], 1, false⟩, ⟨[4], [0], 0, false⟩]
+    let xs := schedule 1 [t]
+    schedNextOkB xs = true ∧ schedOrdB xs = true ∧ xs.all (fun x => !x.2.staging) = true ∧
+    getAt (xs.foldl (cstep 32 (some 32)) {}).reads 0 = 96 ∧
+    getAt (refCache 32 (some 32) {} xs).reads 0 = 96 := by decide
+
+/-- hypothesis (1) of `cache_eq_reference_partial` is discharged by the next-use pass: the
+    interleaving of the bindings' next-use traces carries correct next-use stamps. -/
+theorem cache_hyp_next (L : Nat) (bs : List (List Bool × Nat × Option Nat × List CRow)) :
+    schedNextOkB (schedule L (bs.map (fun b => accsOf b.1 b.1 b.2.1 b.2.2.1 b.2.2.2))) = true := by
+  apply schedule_nextOk
+  intro t ht
+  obtain ⟨b, _, rfl⟩ := List.mem_map.1 ht
+  exact accsOf_nextOk _ _ _ _
+
+/-- Cache traffic bounds, for ANY consumption sequence (ties and pinned lines included): the fills
+    charged to binding `i` are at most one per read access of `i`, and — if the run does not end in
+    an exception — at least one for every distinct line of `i` whose first access is a read. -/
+theorem cache_traffic_bounds (ls : Nat) (cap : Option Nat) (xs : Sched) (i : Nat) :
+    getAt (xs.foldl (cstep ls cap) {}).reads i ≤ ls * readsOf i xs ∧
+    ((xs.foldl (cstep ls cap) {}).failed = none →
+      ls * firstReadsOf i [] xs ≤ getAt (xs.foldl (cstep ls cap) {}).reads i) := by
+  refine ⟨?_, ?_⟩
+  · have := cache_upper ls cap i xs {}
+    simpa [getAt, alookup] using this
+  · intro hok
+    have := cache_lower ls cap i xs {} [] (by intro k hk; simp [alookup] at hk) hok
+    simpa [getAt, alookup] using this
+
+example :
+    let xs : Sched := schedule 1 [accsOf [true] [true] 1 none
+      [⟨[0], [0], 0, false⟩, ⟨[1], [1], 1, false⟩, ⟨[2], [0], 0, false⟩, ⟨[3], [2], 2, true⟩]]
+    readsOf 0 xs = 3 ∧ firstReadsOf 0 [] xs = 2 ∧
+    getAt (xs.foldl (cstep 32 (some 0)) {}).reads 0 = 96 ∧
+    getAt (xs.foldl (cstep 32 (some 64)) {}).reads 0 = 64 := by decide
+
+/-- The cache theorem stated on the bindings' traces: if every binding's next-use trace is
+    stamp-sorted, carries correct next-use stamps (`accsOf_nextOk`), has no two different lines at one
+    stamp and no staging access, then `cacheTraffic` (all bindings, any capacity and line size)
+    raises nothing and charges what the furthest-next-use-with-bypass reference charges on the
+    consumption sequence.  PARTIAL with respect to the property's quantifier: stamp ties between
+    different lines and pinned staging lines are excluded (see `cache_eq_reference_partial`). -/
+theorem cache_eq_reference_traces_partial (L ls : Nat) (cap : Option Nat) (traces : List (List Acc))
+    (h1 : ∀ t ∈ traces, nextOkB t = true) (h2 : ∀ t ∈ traces, TraceOk L t)
+    (h3 : ∀ t ∈ traces, ∀ a ∈ t, a.staging = false) :
+    (cacheRun L ls cap traces).failed = none ∧
+    (cacheRun L ls cap traces).reads = (refCache ls cap {} (schedule L traces)).reads ∧
+    (cacheRun L ls cap traces).writes = (refCache ls cap {} (schedule L traces)).writes := by
+  have := cache_eq_reference_partial ls cap (schedule L traces) (schedule_nextOk L traces h1)
+    (schedule_ord L traces h2) (by
+      intro x hx
+      obtain ⟨t, ht, hm⟩ := schedule_mem L traces hx
+      exact h3 t ht _ hm)
+  exact ⟨this.1, this.2.1, this.2.2.1⟩
+
+example :
+    let t0 : List Acc := accsOf [true] [true] 1 none [⟨[0], [3], 3, false⟩, ⟨[1], [3], 3, false⟩, ⟨[2], [4], 4, false⟩]
+    let t1 : List Acc := accsOf [false, true] [false, true] 1 none
+      [⟨[0, 0], [3, 1], 1, false⟩, ⟨[0, 1], [3, 2], 2, true⟩, ⟨[2, 0], [4, 1], 1, false⟩]
+    (∀ t ∈ [t0, t1], nextOkB t = true ∧ stampsSortedB (t.map (·.stamp)) = true ∧ traceTieFreeB t = true
+        ∧ t.all (fun a => decide (a.stamp.length ≤ 2) && !a.staging) = true) ∧
+    getAt (cacheRun 2 32 (some 32) [t0, t1]).reads 0 = 64 ∧
+    getAt (cacheRun 2 32 (some 32) [t0, t1]).reads 1 = 64 := by decide
+
+end Traffic
+end Ft
